@@ -24,6 +24,7 @@ ACTION_CONSTRAINT %(emit)s
 INVARIANT CacheSound
 INVARIANT FieldLengths
 INVARIANT NoSharedXyz
+%(extra)s
 PROPERTY Independent
 CHECK_DEADLOCK FALSE
 """
@@ -184,6 +185,13 @@ def _replay(task):
                 o[s["dst"]] = (nt, ns)
                 if nt.topology is T1.topology or nt.topology is T2.topology:
                     return dict(step=k, problem="join result shares its topology with a source")
+                if T1.n_frames:
+                    # side observation (TrajOps!DiscardIdentity): x joined with (last frame of x, then y), overlapping frame discarded, is x
+                    # joined with y -- in every field, and whatever cache the result carries describes its own rows
+                    nd = T1.join(T1[-1:].join(T2), discard_overlapping_frames=True)
+                    r = _check(nd, ns, None) or _rmsd_agree(nd)
+                    if r:
+                        return dict(step=k, problem="join(discard_overlapping_frames=True) of x with (last frame of x, y): " + r)
             elif op == "stack":
                 (T1, S1), (T2, S2) = o[s["x"]], o[s["y"]]
                 nt = T1.stack(T2)
@@ -311,7 +319,7 @@ def run(ctx):
     _env["dir"] = ctx.scratch
     # vacuity guard: with the design switches set to what the pinned code did, TLC must find CacheSound violated
     g = ctx.tlc("TrajOps", "TrajOps_guard.cfg", must_pass=False, workers=8,
-                cfg_text=(CFG % dict(F=F, A=A, D=3, fs="FALSE", fa="FALSE", view="VIEW View", emit="Emit")).replace("ACTION_CONSTRAINT Emit\n", ""))
+                cfg_text=(CFG % dict(F=F, A=A, D=3, fs="FALSE", fa="FALSE", view="VIEW View", emit="Emit", extra="")).replace("ACTION_CONSTRAINT Emit\n", ""))
     if "CacheSound is violated" not in (g.violation or g.out):
         ctx.machinery_failure("vacuity guard: TrajOps with FixSlice=FALSE should violate CacheSound")
     tests = []
@@ -325,7 +333,7 @@ def run(ctx):
             kw = dict(simulate=sim, depth=D + 1, seed=ctx.seed + 3)
         r = ctx.tlc("TrajOps", "TrajOps_D%d_%s.cfg" % (D, "sim" if isinstance(sim, int) else "bfs"), workers=1 if (kw or (view and not ctx.thorough)) else 16,
                     cfg_text=CFG % dict(F=F, A=A, D=D, fs="TRUE", fa="TRUE", view="VIEW View" if view else "",
-                                        emit="EmitLast" if kw else "Emit"), timeout=1500, **kw)
+                                        emit="EmitLast" if kw else "Emit", extra="" if kw else "INVARIANT DiscardIdentity"), timeout=1500, **kw)
         got = r.tr
         if sim == "sample":
             got = stratified_sample(got, _feat, 25000, ctx.rng)
